@@ -275,17 +275,38 @@ pub fn relabel(contents: &[u32]) {
     })
 }
 
+/// The element: an id (first field) and, with the `wide` feature, padding that makes it 32 bytes
+/// large and 16-byte aligned (so element-size / alignment dependent pointer arithmetic is exercised
+/// with something else than a 4-byte element).
+#[cfg(not(feature = "wide"))]
 #[repr(transparent)]
 pub struct E(pub u32);
+#[cfg(feature = "wide")]
+#[repr(C, align(16))]
+pub struct E(pub u32, pub [u32; 5]);
+
+impl E {
+    #[inline]
+    pub fn raw(id: u32) -> E {
+        #[cfg(not(feature = "wide"))]
+        {
+            E(id)
+        }
+        #[cfg(feature = "wide")]
+        {
+            E(id, [0x7777_7777; 5])
+        }
+    }
+}
 
 impl E {
     /// A fresh element created by the harness; inside a crate call (closures, iterators) it is
     /// tagged `N(k)`, outside it gets the given tag.
     pub fn with_tag(tag: Tag) -> E {
-        E(with(|l| l.alloc(tag)))
+        E::raw(with(|l| l.alloc(tag)))
     }
     pub fn in_call_fresh() -> E {
-        E(with(|l| {
+        E::raw(with(|l| {
             let k = l.new_in_call;
             l.new_in_call += 1;
             l.alloc(TAG_NEW + k)
@@ -352,7 +373,7 @@ impl Clone for E {
         with(|l| {
             l.events.push(Ev::Clone(t));
             let tag = if t == TAG_GARB || t == TAG_DEAD { t } else { t_c(t) };
-            E(l.alloc(tag))
+            E::raw(l.alloc(tag))
         })
     }
 }
